@@ -2128,6 +2128,12 @@ impl<'a, E: quiver_core::effects::Effect> Compiler<'a, E> {
 
             // If condition is compile-time NIL (won't match), skip this branch entirely
             if self.is_nil(condition_type) {
+                // The branch's code was still emitted and still runs: a failed match fills its
+                // binding slots with nil. Drop them so the next branch's locals line up.
+                if self.local_count > param_local + 1 {
+                    self.codegen
+                        .add_instruction(Instruction::Reset(param_local + 1));
+                }
                 // Only include nil in result type if this is the last branch
                 // Otherwise, nil causes fallthrough to the next branch
                 if is_last_branch {
